@@ -304,7 +304,7 @@ def generate(rng, seed, run, tier, focus='C01', xmode=False):
                 ev = [kind, h]
                 del handles[h]
         elif kind in ('pk_ctx', 'pk_lat'):
-            ev = [kind, s, w, rng.choice([0, 1, 2, 3, 4, 5])]
+            ev = [kind, s, w, rng.choice([0, 1, 2, 3, 4, 5, 6])]
         elif kind == 'pk_foreign':
             same = [i for i in live if i != s and shadow[i][0] == li]
             mode = rng.choice(['fresh', 'collide', 'collide', 'same'])
@@ -1100,18 +1100,27 @@ class Live:
         e = f.extent(sl.pmask(names))
         return names, e, f.intent(e)
 
+    @staticmethod
+    def pickle_roundtrip(obj, proto):
+        """proto 0-5 in-band; 6 = protocol 5 with out-of-band buffers (buffer_callback / buffers=)."""
+        if proto == 6:
+            buffers = []
+            data = pickle.dumps(obj, 5, buffer_callback=buffers.append)
+            return pickle.loads(data, buffers=buffers)
+        return pickle.loads(pickle.dumps(obj, proto))
+
     def step_pickle(self, kind, ev, s, sl):
         rec = self.rec
         touched = [s]
         if kind == 'pk_ctx':
             src = sl.ctxs[ev[2] % len(sl.ctxs)]
-            out = call(lambda: pickle.loads(pickle.dumps(src, ev[3])))
+            out = call(self.pickle_roundtrip, src, ev[3])
             self.need(out.ok, 'context_pickles', lambda: f'pickle round trip of a context raised {out.text()}')
             sl.add_ctx(out.value)
             rec.fault('same_process_unpickle')
         elif kind == 'pk_lat':
             lt = self.lattice_of(sl, ev[2], kind)
-            out = call(lambda: pickle.loads(pickle.dumps(lt[0], ev[3])))
+            out = call(self.pickle_roundtrip, lt[0], ev[3])
             self.need(out.ok, 'lattice_pickles', lambda: f'pickle round trip of a lattice raised {out.text()}')
             sl.add_lat(out.value, 'unpickle')
             rec.fault('same_process_unpickle')
